@@ -1459,3 +1459,44 @@ Proof.
   destruct (split_dcolon (a ++ c_colon :: c_colon :: b ++ c_colon :: c_colon :: c)) as [|p0 [|p1 [|p2 r]]];
     cbn [length] in *; try lia. reflexivity.
 Qed.
+
+(** ------------------------------------------------------------ parse_region on formatted regions *)
+Theorem parse_region_format_roundtrip : forall name s e t L,
+  name_ok_b name = true -> lookup name t = Some L -> 0 <= s <= e -> e <= L ->
+  parse_region (fmt_region name s e) (Some t) = Some (name, s, e).
+Proof.
+  intros name s e t L Hn Hl Hse HeL.
+  apply (parse_region_complete _ t name (Some s) (Some e) L); try assumption.
+  now apply parse_format_roundtrip.
+Qed.
+
+Theorem parse_region_format_beyond : forall name s e t L,
+  name_ok_b name = true -> lookup name t = Some L -> 0 <= s <= e -> L < e ->
+  parse_region (fmt_region name s e) (Some t) = None.
+Proof.
+  intros name s e t L Hn Hl Hse HeL.
+  apply (parse_region_beyond_end _ t name (Some s) e L); try assumption.
+  now apply parse_format_roundtrip.
+Qed.
+
+Theorem parse_region_format_unknown : forall name s e t,
+  name_ok_b name = true -> lookup name t = None -> 0 <= s <= e ->
+  parse_region (fmt_region name s e) (Some t) = None.
+Proof.
+  intros name s e t Hn Hl Hse.
+  apply (parse_region_unknown_name _ t name (Some s) (Some e)); try assumption.
+  now apply parse_format_roundtrip.
+Qed.
+
+(** bare name -> whole chromosome; open end -> up to the chromosome length *)
+Theorem parse_region_defaults : forall name t L s,
+  name_ok_b name = true -> lookup name t = Some L -> 0 <= s <= L ->
+  parse_region name (Some t) = Some (name, 0, L) /\
+  parse_region (name ++ c_colon :: dec s ++ [c_hyphen]) (Some t) = Some (name, s, L).
+Proof.
+  intros name t L s Hn Hl Hs. split.
+  - apply (parse_region_complete _ t name None None L); try assumption; try lia.
+    now apply parse_region_string_bare.
+  - apply (parse_region_complete _ t name (Some s) None L); try assumption; try lia.
+    apply parse_format_roundtrip_open; [assumption|lia].
+Qed.
